@@ -41,7 +41,8 @@ LEVEL_TEXT = ('All comparison chains of length 1-2 over the 10 comparison operat
               '(thorough 4) over a pool of switchable conditions with overlapping/duplicate/out-of-range constants, with '
               'use_switch on and off; selected arm, result, exception type and the ordered evaluation log must equal CPython.')
 LEVEL_NOTE = ('`is`/`is not` only with Python-object operands (identity of C values is not defined).  C-typed operands only '
-              'receive representable values.  Enum-typed switch subjects need .pyx and are not enumerated.  Trusted: CPython '
+              'receive representable values (a C int tested against a bytes literal only gets 0..255); typed str/bytes leaves do '
+              'not receive None; int-vs-Py_UCS4 comparisons (C semantics by typing) are not enumerated.  Enum-typed switch subjects need .pyx and are not enumerated.  Trusted: CPython '
               '3.12 as reference, gcc.')
 
 REACH = ['__Pyx_PyUnicode_Equals', '__Pyx_PyBytes_Equals', 'PyObject_RichCompare', '__Pyx_PySequence_ContainsTF', 'switch (',
@@ -102,8 +103,8 @@ TK = {
     'i': ('LI', 'cython.int', ['0', '1', '2', '-1', '2**31 - 1', '-2**31']),
     'd': ('LD', 'cython.double', ['0.0', '1.0', '1.5', '-0.0', "float('nan')", "float('inf')", '2.0']),
     'b': ('LB', 'cython.bint', ['True', 'False']),
-    's': ('LS', 'str', ["''", "'a'", "'b'", "'ab'", 'chr(0xe9)', 'chr(0x20ac)', "'a' + chr(0x1f600)", "'a\\x00'", 'None']),
-    'y': ('LY', 'bytes', ["b''", "b'a'", "b'b'", "b'ab'", "b'a\\x00'", "b'\\xff'", 'None']),
+    's': ('LS', 'str', ["''", "'a'", "'b'", "'ab'", 'chr(0xe9)', 'chr(0x20ac)', "'a' + chr(0x1f600)", "'a\\x00'"]),
+    'y': ('LY', 'bytes', ["b''", "b'a'", "b'b'", "b'ab'", "b'a\\x00'", "b'\\xff'"]),
     'u': ('LU', 'cython.Py_UCS4', ["'a'", "'b'", 'chr(0xe9)', 'chr(0x20ac)', 'chr(0x1f600)', "'\\x00'"]),
     'c': ('LC', 'cython.uchar', ['0', '1', '97', '98', '255']),
     'l': ('LL', 'cython.long', ['0', '1', '-1', '2**62', '-2**63']),
@@ -145,7 +146,7 @@ def family_chains(tier):
             params = ', '.join(names[:n + 1])
             optag = ','.join(ops)
             b.add(params, 'return ' + expr, 'chain/obj/%s' % optag, Prod(*([vals] * (n + 1))), 'o%d' % n)
-            if n <= 2:
+            if n <= (1 if quick else 2):
                 b.add(params, 'if %s:\n    return 1\nreturn 0' % expr, 'chain-if/obj/%s' % optag, Prod(*([vals] * (n + 1))), 'o%d' % n)
     # typed chains
     for combos, nops in ((TCOMBOS1, 1), (TCOMBOS2, 2)):
@@ -307,6 +308,14 @@ def family_switch(tier):
     return b
 
 
+def build_key(m, r):
+    tags = [f.tag for f in m.funcs]
+    t = tags[0] if tags else m.name
+    if t.startswith('switch/'):
+        t = '/'.join(t.split('/')[:2])
+    return 'build-failure|%s|%s' % (r.stage, t)
+
+
 def keyfn(tag, inp, exp, got):
     """family/operand typing/operators (switch: subject type only) | operand classes | first divergent event | divergence"""
     div = e2.divclass(exp, got)
@@ -344,7 +353,7 @@ def run(ctx):
                 mods.append(e2.Mod('%sns_%d' % (prefix, i // per), PRELUDE, parts[i:i + per], b.sets, ext='.py', use_log=True,
                                    directives={'optimize.use_switch': False}))
     ctx.log('%d functions in %d modules' % (nf, len(mods)))
-    st = g5.run_diff(ctx, mods, keyfn=keyfn, reach=REACH, timeout=600, groups_per_mod=2)
+    st = g5.run_diff(ctx, mods, keyfn=keyfn, reach=REACH, timeout=600, groups_per_mod=2, build_key=build_key)
     allp = [p for _, b, _ in fams for p in b.parts]
     samples = [{'function': allp[i].src, 'tag': allp[i].funcs[0].tag} for i in (0, len(allp) // 2, len(allp) - 1)]
     cov = g5.cov_from(st, 'every (function, operand tuple); counted once per distinct (function, reference outcome + evaluation log)', samples,
